@@ -41,7 +41,7 @@ pub fn property(id: &str) -> Option<PropertySpec> {
             id: "C04",
             rule: hist::C04_RULE,
             assumptions: vec![ORACLE, SETUP, "stack depths are private and observed only through unwinding"],
-            checks: vec![Box::new(hist::C04Histories), Box::new(hist::C04EngineMoves), Box::new(hist::C04LongGames)],
+            checks: vec![Box::new(hist::C04Histories), Box::new(hist::C04EngineMoves), Box::new(hist::C04LongGames), Box::new(hist::C04Marathon)],
         },
         "C05" => PropertySpec {
             id: "C05",
@@ -53,13 +53,13 @@ pub fn property(id: &str) -> Option<PropertySpec> {
             id: "C12",
             rule: hist::C12_RULE,
             assumptions: vec![ORACLE, SETUP],
-            checks: vec![Box::new(hist::C12Histories), Box::new(hist::C12EngineMoves), Box::new(hist::C12EngineDriven), Box::new(hist::C12LongGames)],
+            checks: vec![Box::new(hist::C12Histories), Box::new(hist::C12EngineMoves), Box::new(hist::C12EngineDriven), Box::new(hist::C12LongGames), Box::new(hist::C12Marathon)],
         },
         "C16" => PropertySpec {
             id: "C16",
             rule: hist::C16_RULE,
             assumptions: vec![ORACLE, SETUP, "harness and engine are compiled with overflow-checks and debug-assertions on"],
-            checks: vec![Box::new(hist::C16Games), Box::new(game::C16GameApi)],
+            checks: vec![Box::new(hist::C16Games), Box::new(game::C16GameApi), Box::new(hist::C16Marathon)],
         },
         "C02" => PropertySpec {
             id: "C02",
